@@ -57,6 +57,6 @@ if confirmed:
         shutil.copy(patch, f'{d}/patch.diff'); shutil.copy(demo, f'{d}/demo_test.go')
     m = json.load(open(meta)) if os.path.exists(meta) else {}
     m.update({'property': pid, 'confirmed_by': 'tools/seedcheck2.py: demo passes on a clean clone, fails with the patch, pinned suite unchanged (scratch copies; /repo untouched)',
-              'checks_run': {p: {'exit': c['rc'], 'lines': c['lines']} for p, c in checks.items()}, 'detected': res['detected'], 'tier': 'quick'})
+              'checks_run': {p: {'exit': c['rc'], 'lines': c['lines'], 'clause': next((l for l in c.get('replay_head', '').split('\n') if l.startswith('# clause:')), None)} for p, c in checks.items()}, 'detected': res['detected'], 'tier': 'quick'})
     json.dump(m, open(f'{d}/meta.json', 'w'), indent=1)
 shutil.rmtree(W, ignore_errors=True)
